@@ -379,7 +379,9 @@ where
 //@ proof {   // [C13]
 //@     // C13: exactly one line break is added, and only when the output is non-empty and does not end with one
 //@     lemma_crlf_bytes();
-//@     assert(evs3 == (if out_h.len() > 0 && out_h.last() != 0x0A { evs_h.push(Ev::W(seq![0x0Du8, 0x0Au8])) } else { evs_h }));
+//@     // (stated over the bytes sent, not over the write calls that carry them)
+//@     lemma_ev_bytes_push(evs_h, Ev::W(seq![0x0Du8, 0x0Au8]));
+//@     assert(ev_bytes(evs3) == ev_bytes(evs_h) + (if out_h.len() > 0 && out_h.last() != 0x0A { seq![0x0Du8, 0x0Au8] } else { Seq::<u8>::empty() }));
 //@ }
 //@ proof {   // [C06,C13]
 //@     if evs3.len() == evs1.len() {
@@ -956,7 +958,9 @@ where
 //@ proof {   // [C13]
 //@     // C13: exactly one line break is added, and only when the output is non-empty and does not end with one
 //@     lemma_crlf_bytes();
-//@     assert(no_fail ==> evs3 == (if out_h.len() > 0 && out_h.last() != 0x0A { evs_h.push(Ev::W(seq![0x0Du8, 0x0Au8])) } else { evs_h }));
+//@     // (stated over the bytes sent, not over the write calls that carry them)
+//@     lemma_ev_bytes_push(evs_h, Ev::W(seq![0x0Du8, 0x0Au8]));
+//@     assert(no_fail ==> ev_bytes(evs3) == ev_bytes(evs_h) + (if out_h.len() > 0 && out_h.last() != 0x0A { seq![0x0Du8, 0x0Au8] } else { Seq::<u8>::empty() }));
 //@ }
 //@ proof { lemma_term_push(evs3, Ev::F); }   // [C06,C13]
         self.writer.flush()?;
@@ -1098,7 +1102,9 @@ where
 //@ proof {   // [C13]
 //@     // C13: exactly one line break is added, and only when the output is non-empty and does not end with one
 //@     lemma_crlf_bytes();
-//@     assert(no_fail ==> evs3 == (if out_h.len() > 0 && out_h.last() != 0x0A { evs_h.push(Ev::W(seq![0x0Du8, 0x0Au8])) } else { evs_h }));
+//@     // (stated over the bytes sent, not over the write calls that carry them)
+//@     lemma_ev_bytes_push(evs_h, Ev::W(seq![0x0Du8, 0x0Au8]));
+//@     assert(no_fail ==> ev_bytes(evs3) == ev_bytes(evs_h) + (if out_h.len() > 0 && out_h.last() != 0x0A { seq![0x0Du8, 0x0Au8] } else { Seq::<u8>::empty() }));
 //@ }
 //@ proof { lemma_term_push(evs3, Ev::F); }   // [C06,C13]
         self.writer.flush()?;
